@@ -205,7 +205,7 @@ CHECKS["C03"] = dict(
     assumptions=["commands handled only by the digest rule are checked for transport and routing, not for Redis semantics (the proxy does not interpret them either)",
                  "the simulator implements the cluster rules of the Redis Cluster specification that the proxy depends on; connections use disjoint key pools"],
     parts=[
-        dict(name="stable", test="TestStable", kind="rapid", checks={"quick": 150, "thorough": 4000}, shards=16, timeout={"quick": 900, "thorough": 3400}, shrinktime="60s", gomaxprocs=4),
+        dict(name="stable", test="TestStable", kind="rapid", crash_is_violation=True, checks={"quick": 150, "thorough": 4000}, shards=16, timeout={"quick": 900, "thorough": 3400}, shrinktime="60s", gomaxprocs=4),
     ],
 )
 
@@ -224,6 +224,28 @@ CHECKS["C01"] = dict(
           "later-arrived command of one node answered before an earlier one of another. Distinct by canonical JSON."),
     assumptions=["backpressure beyond 1024 queued backend requests is not reached (pipelines <= 400)"],
     parts=[
-        dict(name="pipeline", test="TestPipeline", kind="rapid", checks={"quick": 100, "thorough": 2500}, shards=16, timeout={"quick": 900, "thorough": 3400}, shrinktime="60s", gomaxprocs=4),
+        dict(name="pipeline", test="TestPipeline", kind="rapid", crash_is_violation=True, checks={"quick": 100, "thorough": 2500}, shards=16, timeout={"quick": 900, "thorough": 3400}, shrinktime="60s", gomaxprocs=4),
+    ],
+)
+
+CHECKS["C07"] = dict(
+    pkg="c07", level="fault_enumeration",
+    engine="sim: simulated Redis Cluster with fault injection; real proxy through proc.New",
+    rule=("rapid-generated fault histories (1..8 steps + final recovery) over a simulated cluster of 2..4 masters (0..1 replica each), optionally "
+          "with a master down when the proxy starts: traffic bursts (1..60 pipelined writes spread over all nodes), drop of a node's "
+          "established connections (FIN or RST), connection killed after the k-th command (k 1..20, optionally after 0/1/3 reply bytes) "
+          "during a burst, node stop ... start on the same port, slot re-layout over the live masters (shifted ranges, striped, random, "
+          "swap; optionally keeping slot-less masters slot-less), adding a master (with every 5th slot or without slots), fail-over "
+          "(master dies, replica promoted, the failed master stays listed without slots as Redis does). Oracle: every request is "
+          "answered (20 s hang deadline); once a node has been reachable again for the recovery allowance (250 ms > max(connect "
+          "time-out 100 ms, 200 ms)) a SET/GET probe for a key of every reachable master must succeed and read back the written value, "
+          "and a node whose connections were dropped shows a new accepted connection; after a layout change two successful slot "
+          "refreshes must happen within 10 s of redirected traffic and a sweep over up to 40 moved slots then causes 0 new MOVED/ASK; "
+          "after a fail-over requests for the promoted replica's slots must succeed within 10 s. Non-trivial: a fault was followed by "
+          "traffic to the same address, or a layout change moved slots. Distinct by canonical JSON of the history."),
+    assumptions=["the periodic slot refresh runs every 50 ms and its minimum spacing is 5 ms in the harness (2 min / 5 s in production): recovery after a fail-over without any redirection is bounded by that period",
+                 "connect time-outs against black-holed addresses are not generated (refused connects and resets are)"],
+    parts=[
+        dict(name="heal", test="TestHeal", kind="rapid", checks={"quick": 14, "thorough": 500}, shards=16, timeout={"quick": 900, "thorough": 3400}, shrinktime="90s", gomaxprocs=4, crash_is_violation=True),
     ],
 )
